@@ -879,6 +879,8 @@ func genCheckpointScript(rt *rapid.T) *Script {
 	fcolls := cpFeedColls(sc)
 	// with a clock that stands still consecutive mutations get consecutive CAS values (cas, cas+1, ...)
 	sc.Extra["frozenClock"] = chance(rt, 50, "cp.frozen")
+	// (the low bits of the standing clock vary: consecutive CAS values around any byte boundary)
+	sc.Extra["frozenLow"] = pick(rt, []int{0, 0x7e, 0x81, 0xd0, 0xfd}, "cp.frozenlow")
 	keys := []string{"a", "b", "c", "d"}
 	for _, ci := range fcolls {
 		for _, k := range keys[:2] {
@@ -1009,7 +1011,7 @@ func genCheckpointScript(rt *rapid.T) *Script {
 
 func runCheckpointScript(sc *Script) (devs []Deviation, sr *scriptRun, err error) {
 	if frozen, _ := sc.Extra["frozenClock"].(bool); frozen {
-		base := rosmar.VerifGlobalHLCHighest() + 0x100000
+		base := (rosmar.VerifGlobalHLCHighest()+0x100000)&^0xffff + 0x10000
 		restore := rosmar.VerifSetGlobalClock(func() uint64 { return base })
 		defer restore()
 	}
@@ -1019,6 +1021,20 @@ func runCheckpointScript(sc *Script) (devs []Deviation, sr *scriptRun, err error
 	}
 	defer sr.close()
 	w := sr.run.W
+	if frozen, _ := sc.Extra["frozenClock"].(bool); frozen {
+		// under a standing clock the CAS values are consecutive; writes to a scratch key move them
+		// to where their low byte is the drawn one
+		burn := 0
+		switch low := sc.Extra["frozenLow"].(type) {
+		case int:
+			burn = low
+		case float64:
+			burn = int(low)
+		}
+		for i := 0; i < burn; i++ {
+			_ = w.Coll(0, 0).SetRaw("burn", 0, nil, []byte("x"))
+		}
+	}
 	fcolls := cpFeedColls(sc)
 	multi := len(fcolls) > 1
 	collOf := map[uint32]int{}
